@@ -723,4 +723,252 @@ func locktable(exemptPath, outV, outJSON string) {
 	fmt.Printf("fields=%d rows=%d inconsistent=%v\n", len(fields), len(rows), inconsistent)
 }
 
-func syncSkeleton(outV string) { fmt.Println("not implemented yet"); _ = outV }
+// ---------------------------------------------------------------------------------------------------------------
+// sync skeleton: the ordered synchronisation events of the functions the concurrency models are about
+
+var syncFuncs = []string{"Store.Flush", "Store.flushTick", "Store.commit", "Store.Close", "Store.run", "Store.Put", "Store.Remove", "Store.Get",
+	"primaryGC.run", "primaryGC.close", "MultihashPrimary.Close", "Index.garbageCollector", "Index.Close", "Index.Put", "Index.Update", "Index.update",
+	"Index.Remove", "Index.remove", "Index.Get", "Index.Flush", "MultihashPrimary.Flush", "MultihashPrimary.Put", "FreeList.ToGC", "FreeList.FlushN",
+	"FileCache.Open", "FileCache.Close", "FileCache.Remove", "FileCache.Clear", "FileCache.SetCacheSize", "FileCache.Len", "FileCache.Cap"}
+
+type sk struct {
+	ev []string
+}
+
+func exprStr(e ast.Expr) string {
+	switch x := e.(type) {
+	case *ast.Ident:
+		return x.Name
+	case *ast.SelectorExpr:
+		return exprStr(x.X) + "." + x.Sel.Name
+	case *ast.CallExpr:
+		return exprStr(x.Fun) + "()"
+	case *ast.StarExpr:
+		return exprStr(x.X)
+	case *ast.ParenExpr:
+		return exprStr(x.X)
+	case *ast.UnaryExpr:
+		return exprStr(x.X)
+	case *ast.IndexExpr:
+		return exprStr(x.X)
+	}
+	return "?"
+}
+
+func (k *sk) add(c, a string) { k.ev = append(k.ev, fmt.Sprintf("%s \"%s\"", c, a)) }
+func (k *sk) mark(c string)   { k.ev = append(k.ev, c) }
+
+func (k *sk) block(b *ast.BlockStmt) {
+	if b == nil {
+		return
+	}
+	for _, s := range b.List {
+		k.stmt(s)
+	}
+}
+
+func (k *sk) call(c *ast.CallExpr, deferred bool) {
+	if sel, ok := c.Fun.(*ast.SelectorExpr); ok {
+		switch sel.Sel.Name {
+		case "Lock", "RLock", "Unlock", "RUnlock":
+			n := sel.Sel.Name
+			if deferred {
+				n = "Defer" + n
+			}
+			k.add("S"+n, exprStr(sel.X))
+			return
+		}
+		if id, ok := sel.X.(*ast.Ident); ok && id.Name == "verifhook" {
+			if len(c.Args) == 1 {
+				if bl, ok := c.Args[0].(*ast.BasicLit); ok {
+					k.add("SYield", strings.Trim(bl.Value, "\""))
+				}
+			}
+			return
+		}
+		if id, ok := sel.X.(*ast.Ident); ok && id.Name == "log" {
+			return
+		}
+	}
+	if id, ok := c.Fun.(*ast.Ident); ok && id.Name == "close" && len(c.Args) == 1 {
+		n := "SClose"
+		if deferred {
+			n = "SDeferClose"
+		}
+		k.add(n, exprStr(c.Args[0]))
+		return
+	}
+	for _, a := range c.Args {
+		k.expr(a)
+	}
+	if fl, ok := c.Fun.(*ast.FuncLit); ok {
+		k.block(fl.Body)
+		return
+	}
+	name := exprStr(c.Fun)
+	if strings.Contains(name, ".") || name == "panic" {
+		n := "SCall"
+		if deferred {
+			n = "SDeferCall"
+		}
+		k.add(n, name)
+	}
+}
+
+func (k *sk) expr(e ast.Expr) {
+	switch x := e.(type) {
+	case *ast.CallExpr:
+		k.call(x, false)
+	case *ast.UnaryExpr:
+		if x.Op == token.ARROW {
+			k.add("SRecv", exprStr(x.X))
+			return
+		}
+		k.expr(x.X)
+	case *ast.BinaryExpr:
+		k.expr(x.X)
+		k.expr(x.Y)
+	case *ast.ParenExpr:
+		k.expr(x.X)
+	case *ast.FuncLit:
+		k.block(x.Body)
+	case *ast.SelectorExpr, *ast.Ident, *ast.BasicLit:
+	case *ast.IndexExpr:
+		k.expr(x.X)
+		k.expr(x.Index)
+	case *ast.CompositeLit:
+		for _, el := range x.Elts {
+			k.expr(el)
+		}
+	case *ast.KeyValueExpr:
+		k.expr(x.Value)
+	case *ast.TypeAssertExpr:
+		k.expr(x.X)
+	case *ast.StarExpr:
+		k.expr(x.X)
+	}
+}
+
+func (k *sk) stmt(s ast.Stmt) {
+	switch x := s.(type) {
+	case *ast.ExprStmt:
+		k.expr(x.X)
+	case *ast.DeferStmt:
+		k.call(x.Call, true)
+	case *ast.GoStmt:
+		k.add("SGo", exprStr(x.Call.Fun))
+		if fl, ok := x.Call.Fun.(*ast.FuncLit); ok {
+			k.mark("SGoBody")
+			k.block(fl.Body)
+			k.mark("SEndGo")
+		}
+	case *ast.AssignStmt:
+		for _, r := range x.Rhs {
+			k.expr(r)
+		}
+		for _, l := range x.Lhs {
+			if strings.Contains(exprStr(l), ".") {
+				k.add("SAssign", exprStr(l))
+			}
+		}
+	case *ast.IncDecStmt:
+	case *ast.SendStmt:
+		k.add("SSend", exprStr(x.Chan))
+	case *ast.ReturnStmt:
+		for _, r := range x.Results {
+			k.expr(r)
+		}
+		k.mark("SReturn")
+	case *ast.IfStmt:
+		if x.Init != nil {
+			k.stmt(x.Init)
+		}
+		k.expr(x.Cond)
+		k.mark("SIf")
+		k.block(x.Body)
+		if x.Else != nil {
+			k.mark("SElse")
+			k.stmt(x.Else)
+		}
+		k.mark("SEndIf")
+	case *ast.ForStmt:
+		k.mark("SLoop")
+		if x.Init != nil {
+			k.stmt(x.Init)
+		}
+		if x.Cond != nil {
+			k.expr(x.Cond)
+		}
+		k.block(x.Body)
+		k.mark("SEndLoop")
+	case *ast.RangeStmt:
+		k.expr(x.X)
+		k.mark("SLoop")
+		k.block(x.Body)
+		k.mark("SEndLoop")
+	case *ast.BlockStmt:
+		k.block(x)
+	case *ast.SelectStmt:
+		k.mark("SSelect")
+		for _, c := range x.Body.List {
+			cc := c.(*ast.CommClause)
+			if cc.Comm == nil {
+				k.mark("SDefault")
+			} else {
+				k.mark("SCase")
+				k.stmt(cc.Comm)
+			}
+			for _, b := range cc.Body {
+				k.stmt(b)
+			}
+		}
+		k.mark("SEndSelect")
+	case *ast.SwitchStmt:
+		if x.Init != nil {
+			k.stmt(x.Init)
+		}
+		if x.Tag != nil {
+			k.expr(x.Tag)
+		}
+		for _, c := range x.Body.List {
+			k.mark("SCase")
+			for _, b := range c.(*ast.CaseClause).Body {
+				k.stmt(b)
+			}
+		}
+	case *ast.DeclStmt:
+		if gd, ok := x.Decl.(*ast.GenDecl); ok {
+			for _, sp := range gd.Specs {
+				if vs, ok := sp.(*ast.ValueSpec); ok {
+					for _, v := range vs.Values {
+						k.expr(v)
+					}
+				}
+			}
+		}
+	case *ast.LabeledStmt:
+		k.stmt(x.Stmt)
+	}
+}
+
+func syncSkeleton(outV string) {
+	var sb strings.Builder
+	sb.WriteString("(* GENERATED by harness/cmd/skel from /repo's current sources - do not edit. *)\nFrom Coq Require Import List String.\nFrom STH Require Import SyncWf.\nImport ListNotations.\nOpen Scope string_scope.\n\n")
+	var names []string
+	for _, n := range syncFuncs {
+		fi, ok := funcs[n]
+		id := "skel_" + strings.ReplaceAll(n, ".", "_")
+		if !ok {
+			fmt.Fprintf(&sb, "Definition %s : list sev := [SMissing]. (* function not found in the source *)\n", id)
+			names = append(names, id)
+			continue
+		}
+		k := &sk{}
+		k.block(fi.decl.Body)
+		fmt.Fprintf(&sb, "Definition %s : list sev := [\n  %s\n].\n", id, strings.Join(k.ev, ";\n  "))
+		names = append(names, id)
+	}
+	os.MkdirAll(filepath.Dir(outV), 0o755)
+	os.WriteFile(outV, []byte(sb.String()), 0o644)
+	fmt.Printf("functions=%d\n", len(names))
+}
